@@ -7,6 +7,7 @@ case := {
   'comments': [[text, filename, line], ...],
   'dump': '<dump xml>' | None,            # None = --header-only
   'c_includes': [...], 'packages': [...], 'shared_libraries': [...],
+  'identifier_filter_cmd': [argv...], 'symbol_filter_cmd': [argv...], 'doc_format': str,   # optional
 }
 Everything after the C front end is the code under test, imported from REPO.
 """
@@ -122,7 +123,9 @@ def run(case, scratch, cache=False, writer=True, passes=('main', 'introspectable
     res.namespace = namespace
     try:
         try:
-            tr = m['Transformer'](namespace, accept_unprefixed=bool(nsd.get('accept_unprefixed')))
+            tr = m['Transformer'](namespace, accept_unprefixed=bool(nsd.get('accept_unprefixed')),
+                                  identifier_filter_cmd=case.get('identifier_filter_cmd') or None,
+                                  symbol_filter_cmd=case.get('symbol_filter_cmd') or None)
             res.transformer = tr
             tr.set_include_paths([FIXTURES] + list(case.get('include_paths', [])))
             if not cache:
@@ -165,6 +168,8 @@ def run(case, scratch, cache=False, writer=True, passes=('main', 'introspectable
                 m['IntrospectablePass'](tr, blocks).validate()
             namespace.c_includes = list(case.get('c_includes', []))
             namespace.exported_packages = list(case.get('packages', []))
+            if case.get('doc_format'):
+                namespace.doc_format = case['doc_format']
             if writer:
                 res.stage = 'write'
                 res.gir = m['GIRWriter'](namespace, list(sources_roots)).get_encoded_xml()
